@@ -122,7 +122,26 @@ def r192(prog, chk):
                 root = A.root_name(t)
                 if root not in roots or isinstance(t, ast.Name):
                     continue
-                if "self." not in T(v, 400):
+                def from_self(e, depth=0):
+                    """the value reads the instantiator's own data, directly or as (a copy of) a field of a local that names it"""
+                    if "self." in T(e, 400):
+                        return True
+                    if depth > 3:
+                        return False
+                    core = e
+                    if isinstance(core, ast.Call) and len(core.args) == 1 and not core.keywords and isinstance(core.func, ast.Name):
+                        core = core.args[0]  # list(x.unicodes), dict(x.lib)
+                    if not isinstance(core, (ast.Name, ast.Attribute, ast.Subscript)):
+                        return False
+                    rn = core
+                    while isinstance(rn, (ast.Attribute, ast.Subscript)):
+                        rn = rn.value
+                    if isinstance(rn, ast.Name) and rn.id not in roots:
+                        for d in prog.reaching(m, rn.id, rn):
+                            if d.kind == "assign" and d.value is not None and d.element()[1] is None and from_self(d.value, depth + 1):
+                                return True
+                    return False
+                if not from_self(v):
                     continue
                 n += 1
                 txt = T(v, 200)
@@ -305,8 +324,44 @@ def r194(prog, chk):
     chk.ob("R19.4", f"{gi.short}|each new glyph receives the instance of the glyph of its own name", ok, where(gi), detail=T(call[0], 90) if call else "", message=f"{gi.short}: a glyph receives another glyph's instance")
     gg = ix.get_method(I, "generate_glyph_instance", own=True)
     u = [(s, t, v) for s, t, v in attr_stores(gg, "unicodes")]
-    ok = len(u) == 1 and T(u[0][2]) == f"list(self.default_source_glyphs[{gg.params()[1]}].unicodes)"
+    ok = len(u) == 1 and isinstance(u[0][2], ast.Call) and A.callee_name(u[0][2]) in ("list", "tuple") and len(u[0][2].args) == 1 \
+        and isinstance(u[0][2].args[0], ast.Attribute) and u[0][2].args[0].attr == "unicodes"
+    if ok:
+        okg, _ = every_origin(prog, gg, u[0][2].args[0].value, lambda x, ff: T(x) == f"self.default_source_glyphs[{gg.params()[1]}]", allow_const=False)
+        ok = okg
     chk.ob("R19.4", f"{gg.short}|code points copied from the default source's glyph of the same name", ok, where(gg), detail=T(u[0][2]) if u else "", message=f"{gg.short}: unicodes are not those of the same-named default glyph")
+    # what fontMath extracted into the output glyph is the instance: after extractGlyph nothing but the code points is written
+    ex = [c for c in calls_named(gg, "extractGlyph")]
+    need(len(ex) == 1 and ex[0].args and isinstance(ex[0].args[0], ast.Name), f"cannot interpret {gg.short}: extractGlyph")
+    og = ex[0].args[0].id
+    cfg = prog.cfg(gg)
+    after = []
+    for n in A.body_nodes(gg.node):
+        tgt = None
+        if isinstance(n, (ast.Assign, ast.AugAssign, ast.Delete)):
+            for t in (n.targets if isinstance(n, (ast.Assign, ast.Delete)) else [n.target]):
+                for el in (t.elts if isinstance(t, (ast.Tuple, ast.List)) else [t]):
+                    base = el
+                    while isinstance(base, (ast.Attribute, ast.Subscript)):
+                        base = base.value
+                    if isinstance(el, (ast.Attribute, ast.Subscript)) and isinstance(base, ast.Name) and base.id == og:
+                        tgt = el
+        elif isinstance(n, ast.Call) and isinstance(n.func, ast.Attribute) and n is not ex[0]:
+            base = n.func.value
+            while isinstance(base, (ast.Attribute, ast.Subscript)):
+                base = base.value
+            if isinstance(base, ast.Name) and base.id == og and n.func.attr in ("clear", "clearAnchors", "clearContours", "clearComponents", "removeAnchor", "appendAnchor", "removeComponent",
+                                                                                 "removeContour", "append", "extend", "remove", "pop", "insert", "move", "scale", "transform", "round"):
+                tgt = n
+        if tgt is None:
+            continue
+        if isinstance(tgt, ast.Attribute) and tgt.attr == "unicodes":
+            continue
+        after.append(n)
+    chk.ob("R19.4", f"{gg.short}|the output glyph is what fontMath extracted plus the default glyph's code points, nothing else is written", not after, where(gg, after[0]) if after else where(gg, ex[0]),
+           detail=f"extractGlyph({og}, onlyGeometry=True); {og}.unicodes = ...",
+           message=f"{gg.short}: the instance glyph is edited after the interpolated data was extracted into it (`{T(after[0], 70) if after else ''}`): an instance on a master "
+                   f"no longer reproduces that master (anchors / outline / advance dropped or changed)")
     # R19.5: the font handed to swap_glyph_names is the fresh instance font
     c = [c for c in calls_named(gi, "swap_glyph_names")]
     ok = len(c) == 1
@@ -478,6 +533,12 @@ def r198(prog, chk):
 
 
 MUTANTS = [
+    M("instance anchors filtered down to the default glyph's anchor names (seeded C19j)", "ufo2ft/instantiator.py", "Instantiator.generate_glyph_instance",
+      "output_glyph.unicodes = list(self.default_source_glyphs[glyph_name].unicodes)",
+      "output_glyph.unicodes = list(self.default_source_glyphs[glyph_name].unicodes)\nnames = {a.name for a in self.default_source_glyphs[glyph_name].anchors}\noutput_glyph.anchors = [dict(a) for a in output_glyph.anchors if a.name in names]", rule="R19.4"),
+    M("default glyph looked up once (explaining variable)", "ufo2ft/instantiator.py", "Instantiator.generate_glyph_instance",
+      "output_glyph.unicodes = list(self.default_source_glyphs[glyph_name].unicodes)",
+      "default_glyph = self.default_source_glyphs[glyph_name]\noutput_glyph.unicodes = list(default_glyph.unicodes)", kind="equiv"),
     M("instance locations quantised to F2Dot14 while master locations are not (seeded C19i)", "ufo2ft/instantiator.py", "Instantiator.normalize",
       "return varLib.models.normalizeLocation(location, self.axis_bounds)",
       "return {k: round(v * 16384) / 16384 for k, v in varLib.models.normalizeLocation(location, self.axis_bounds).items()}", rule="R19.8"),
